@@ -99,7 +99,10 @@ def run(chk):
                        stmt=gd[-1].stmt, inconclusive=verdict == "unknown")
         results[(impl, cfg)] = (repr(nfft), repr(ls), spec.describe((R, DT)) if spec is not None else None,
                                 grid.describe((R, DT)) if grid is not None else None)
-        grid_form(chk, r.fi, c)
+        # (the syntactic `.grid-form` rule is superseded by the `.spacing` obligation above, which reads the divisor off the arithmetic events and so
+        # sees through locals and helper names; it is kept only where the spacing could not be located)
+        if not gd or nfft is None:
+            grid_form(chk, r.fi, c)
     # expected N per configuration (the statement's padding rule)
     for (impl, cfg), v in sorted(results.items()):
         want = {"default": NEXT_P2, "p2_plus": "pow[2,ceil[log2[n]]+p2]", "n": "N", "unpadded": "n"}[cfg]
